@@ -50,7 +50,7 @@ def call_cmd(c, schema, ctx="c1"):
     if op == "setcomment":
         return "setcomment %s %s %s" % (cs, name, enc(None if c["val"] == NULL else c["val"]))
     if op == "addtsec":
-        return "addtsec %s %s %s" % (cs, name, enc(c["val"]))
+        return "addtsec %s %s %s" % (cs, name, enc(None if c["val"] == NULL else c["val"]))
     if op == "rmnsec":
         return "rmnsec %s %s %d" % (cs, name, c["idx"])
     if op == "rmtsec":
